@@ -186,6 +186,19 @@ pub fn run(ctx: &Ctx, rep: &mut Report) {
         rep.bound("exhaustive_subsets_chunk_edge_cfg", J::s("(8,9) (9,8) (12,4) (4,12) (11,5) (13,3) (3,13) x {high,low,def} x {nosimd,avx2}; (16,4) def nosimd"));
     }
 
+    // long shards (above 4 KiB / 8 KiB / 16 KiB, block counts that are no multiple of 64, short final block)
+    let long_data: Vec<&str> = if ctx.thorough() { vec!["dense:4162", "dense:8318", "dense:16450", "dense:65730"] } else { vec!["dense:4162", "dense:8318", "dense:16450"] };
+    for &(k, r) in &[(2usize, 3usize), (3, 2), (3, 3), (5, 2)] {
+        for &eng in &engines_all() {
+            for codec in ["high", "low"] {
+                for d in &long_data {
+                    specs.push(GroupSpec { eng, codec, k, r, data: d.to_string(), soil });
+                }
+            }
+        }
+    }
+    rep.bound("exhaustive_subsets_long_shards", J::s(format!("(2,3) (3,2) (3,3) (5,2) x {{high,low}} x every engine x {long_data:?}, soiled: every subset")));
+
     // build groups (parallel)
     let built: Vec<Result<Group, String>> = par_for(specs.len(), 4, |i| {
         let s = &specs[i];
